@@ -11,6 +11,7 @@ S2  a value that is "a position or -1" (result of pos()/number()/index(), an ele
     by `< 0` / `>= 0`: `> 0` and `<= 0` treat position 0 as "absent" (also: int locals that are initialised with or assigned -1)
 S10 a loop variable bounded by nRows() / numRows...() is a row index, one bounded by nCols() / numCols...() a column index: it is passed only to
     getters / setters of that kind and subscripts only arrays of that kind
+S11 argument selection: an argument named after one side (lower, lhs, min) or kind (row) is not passed to a parameter named after the other
 S3  an ascending counting loop over a container starts at 0 - or at 1 when the element 0 was handled just before it
 S4  a descending counting loop (`for(v = <computed>; v OP 0; --v)`) runs while v >= 0: `v > 0` skips the entry 0
 S5  inside a loop over the positions 0..size()-1 of a sparse vector, the vector is read through index(p) / value(p) / element(p),
@@ -408,6 +409,7 @@ TEXT = {
     'S1': 'no comparison with +-infinity is constant (`x <= infinity`, `x >= -infinity`, `x < -infinity`)',
     'S2': 'a position-or-minus-one value (pos(), number(), permutation entries) is compared with 0 only by `< 0` / `>= 0`',
     'S10': 'a loop variable bounded by the number of rows (columns) is passed only to row (column) getters / setters and subscripts only per-row (per-column) arrays',
+    'S11': 'an argument whose name says lower / lhs / min (or row) is not passed to a parameter whose name says upper / rhs / max (or column), and vice versa',
     'S3': 'an ascending counting loop over a container starts at 0, or at 1 after the element 0 was handled separately',
     'S4': 'a descending counting loop that starts at a computed value runs down to 0 (`>= 0`), not to 1',
     'S5': 'inside a loop over the positions of a sparse vector the vector is never subscripted by index with the position',
@@ -416,7 +418,7 @@ TEXT = {
     'S9': 'a two-parameter comparator whose parameters are interchangeable (ch1/ch2, a/b, x/y) applies the same expression to both',
     'S7': 'two member functions whose names are lower/upper (lhs/rhs, min/max, ...) mirror images and whose bodies have the same shape are mirror images',
 }
-FLOORS = {'S10': 800, 'S3': 450, 'S1': 350, 'S2': 60, 'S4': 260, 'S5': 150, 'S6': 45, 'S7': 90, 'S8': 10, 'S9': 4}
+FLOORS = {'S11': 500, 'S10': 800, 'S3': 450, 'S1': 350, 'S2': 60, 'S4': 260, 'S5': 150, 'S6': 45, 'S7': 90, 'S8': 10, 'S9': 4}
 ROWB = re.compile(r'\b(nRows|numRows|numRowsReal|numRowsRational|numRowsT)\(\)')
 COLB = re.compile(r'\b(nCols|numCols|numColsReal|numColsRational|numColsT)\(\)')
 ROWGET = set('lhs rhs rowVector rowType maxRowObj rowObj lhsReal rhsReal lhsRational rhsRational rowVectorReal rowVectorRational rowVectorRealInternal rId changeLhs changeRhs '
@@ -427,6 +429,43 @@ COLGET = set('lower upper obj maxObj colVector cId changeLower changeUpper chang
              'changeBoundsReal changeObjReal changeLowerRational changeUpperRational changeBoundsRational changeObjRational lowerUnscaled upperUnscaled objUnscaled maxObjUnscaled'.split())
 ROWARR = re.compile(r'(_rowTypes|_basisStatusRows|rowscaleExp|rStatus|rowStatus|m_rIdx|m_rBasisStat)$')
 COLARR = re.compile(r'(_colTypes|_basisStatusCols|colscaleExp|cStatus|colStatus|m_cIdx|m_cBasisStat)$')
+SIDE_WORD = {'lower': 'L', 'lo': 'L', 'lhs': 'L', 'left': 'L', 'low': 'L', 'upper': 'U', 'up': 'U', 'rhs': 'U', 'right': 'U', 'min': 'L', 'max': 'U'}
+KIND_WORD = {'row': 'R', 'rows': 'R', 'col': 'C', 'cols': 'C', 'column': 'C', 'columns': 'C'}
+# call sites where an argument deliberately goes to the parameter of the other side: '<caller>|<callee>(<argument>)' -> reason
+ARG_ACCEPTED = {
+    'SPxSolverBase::changeRange|changeRhs(newLhs)': 'under EQ(newLhs, newRhs): both sides get the identical number',
+    'LPColSetBase::add|add(colIndices)': 'SVSetBase::add names its generic parameters after rows',
+    'LPColSetBase::add|add(colSize)': 'SVSetBase::add names its generic parameters after rows',
+    'LPColSetBase::add|add(colValues)': 'SVSetBase::add names its generic parameters after rows',
+    'SoPlexBase::writeDualFileReal|writeFileLPBase(colNames)': 'the dual LP has a row per primal column: the name sets are exchanged on purpose',
+    'SoPlexBase::writeDualFileReal|writeFileLPBase(rowNames)': 'the dual LP has a row per primal column: the name sets are exchanged on purpose',
+    'SVSetBase::clear|reMax(minNewSize)': 'the new capacity is the requested minimum size',
+    'CLUFactorRational::update|makeLvec(p_col)': 'the eta vector of a basis update is stored as an L vector; its "row" is the position of the replaced column',
+    'CLUFactorRational::updateNoClear|makeLvec(p_col)': 'the eta vector of a basis update is stored as an L vector; its "row" is the position of the replaced column',
+    'CLUFactor::update|makeLvec(p_col)': 'as in CLUFactorRational::update',
+    'CLUFactor::updateNoClear|makeLvec(p_col)': 'as in CLUFactorRational::update',
+}
+
+
+def word_tag(t, table):
+    ps = [x.lower() for x in pieces(t) if re.match(r'[A-Za-z]', x)]
+    st = set(table[x] for x in ps if x in table)
+    return list(st)[0] if len(st) == 1 else None
+
+
+def arg_name(a):
+    a = strip(a)
+    if a is None:
+        return None, False
+    if a.k == 'UnaryOperator' and a.o in ('-', 'pre-') and a.c:
+        return arg_name(a.kids[0])[0], True
+    if a.n:
+        return a.short, False
+    if a.k in ('ArraySubscriptExpr', 'ParenExpr', 'MaterializeTemporaryExpr', 'CXXBindTemporaryExpr', 'CXXConstructExpr', 'CXXFunctionalCastExpr', 'ImplicitCastExpr', 'UnaryOperator') and a.c:
+        return arg_name(a.kids[0])
+    return None, False
+
+
 SENSEPAT = re.compile(r'MINIMIZE|MAXIMIZE|\bmaximizing\b|\bminimizing\b|maxSense|spxSense|m_thesense')
 SPARSE = re.compile(r'^(const )?(class )?(soplex::)?(SVectorBase|SSVectorBase|DSVectorBase|UnitVectorBase)<')
 PERMNAME = re.compile(r'perm', re.I)
@@ -495,6 +534,31 @@ def _scan(fb):
                     tb = re.sub(r'\b%s\b' % re.escape(list(ub)[0]), '@', render(cp[2]))
                     put('S9', 'compare(%s,%s)' % (f.params[0][0], f.params[1][0]), n, ta == tb, 'both sides are %s' % ta[:40] if ta == tb else
                         '`%s` compares %s of one argument with %s of the other: the comparison depends on which argument comes first' % (render(strip(n.kids[0]))[:70], ta[:30], tb[:30]), 'S9')
+        # ---- S11: argument / parameter name agreement
+        for n in f.nodes:
+            if not n.is_call() or n.k == 'CXXOperatorCallExpr' or f.in_assert(n):
+                continue
+            g = fb.funcs.get(n.u)
+            if g is None or not g.params:
+                continue
+            args11 = n.kids if n.k in ('CXXConstructExpr', 'CXXTemporaryObjectExpr') else n.args()
+            if len(args11) > len(g.params):
+                continue
+            for a11, (pn, _pt) in zip(args11, g.params):
+                an, negd = arg_name(a11)
+                if not an or not pn or negd:
+                    continue
+                for table in (SIDE_WORD, KIND_WORD):
+                    ta, tp = word_tag(an, table), word_tag(pn, table)
+                    if not (ta and tp):
+                        continue
+                    base11 = '%s(%s)' % (g.short, an)
+                    if ta != tp and table is SIDE_WORD and g.short in ('changeLower', 'changeUpper', 'changeLhs', 'changeRhs') and strip(a11).is_call() \
+                            and strip(a11).short in ('lower', 'upper', 'lhs', 'rhs'):
+                        continue      # fixing a variable / row at its other bound: changeLower(j, upper(j))
+                    acc11 = ARG_ACCEPTED.get('%s|%s' % (re.sub(r'<[^<>]*(<[^<>]*>)?[^<>]*>', '', _fname(f)), base11))
+                    put('S11', base11, n, ta == tp or acc11 is not None, 'same side' if ta == tp else ('accepted: ' + acc11) if acc11 else
+                        '`%s` is passed to the parameter `%s` of %s: the names say it is the other %s' % (render(strip(a11))[:40], pn, g.short, 'side (lower / upper)' if table is SIDE_WORD else 'kind (row / column)'), 'S11')
         for n in f.nodes:
             p = cmp_parts(n) if n.k in ('BinaryOperator', 'CXXOperatorCallExpr') else None
             if p and not f.in_assert(n):
@@ -695,7 +759,7 @@ def _scan(fb):
                               'bodies are mirror images' if not why else ('listed as asymmetric: ' + acc) if acc else
                               '%s (line %d) and %s (line %d) have the same shape, but %s' % (f.short, f.line, gname, g.line, why[0])))
     _reference(comparable, nc)
-    need = {'S1', 'S10', 'S2', 'S3', 'S4', 'S5', 'S6', 'S7', 'S8', 'S9'}
+    need = {'S1', 'S10', 'S11', 'S2', 'S3', 'S4', 'S5', 'S6', 'S7', 'S8', 'S9'}
     if not need <= ctl:
         raise AnalysisBroken('shape rules: positive controls did not fire: %s' % sorted(need - ctl))
     for r, fl in FLOORS.items():
